@@ -564,6 +564,7 @@ def debug_module(idx, desc, entry, rnd, bounds=None):
 # ------------------------------------------------------------------------------------------------
 DV_SRC = {"none": None, "str": "\"abc\"", "empty_str": "\"\"", "path": "::dx_support::SRC7", "assoc_path": "::dx_support::Holder::SRC3", "into_path": "::dx_support::SRCI8",
           "qself_path": "<::dx_support::Holder as ::dx_support::HasSrc>::SRC2", "turbofish_path": "::dx_support::HolderG::<u8>::SRC1",
+          "own_assoc_path": "Pr::RAW4",
           "call": "::dx_support::mk(5)", "block": "{ ::dx_support::mk(6) }", "method": "::dx_support::mk(4).same()", "int": "5", "neg": "-3",
           "bytes": "b\"ab\""}
 DV_TY = {"int": "u8", "neg": "i8", "bytes": "&'static [u8]"}
@@ -1002,6 +1003,9 @@ C12_SPECIAL = [
         let pcmp_equal = ::dx_support::table_pcmp(&a) == ::dx_support::table_pcmp(&b) && ::dx_support::table_ops(&a) == ::dx_support::table_ops(&b);
         let hash_consistent = ::dx_support::law_eq_hash(&a) == -1;
         format!("{{\\"id\\":IDX,\\"nvals\\":12,\\"debug_equal\\":{},\\"eq_equal\\":{},\\"cmp_equal\\":{},\\"pcmp_equal\\":{},\\"hash_consistent\\":{},\\"diff\\":\\"\\"}}\\n", debug_equal, eq_equal, cmp_equal, pcmp_equal, hash_consistent)"""),
+    ("unsized_path_qualified_inline", ["Debug", "PartialEq"], "pub struct T<G: ?::core::marker::Sized> { pub head: u8, pub tail: G }", "COMPILE_ONLY"),
+    ("unsized_path_qualified_where", ["Debug", "PartialEq", "Eq", "Hash"], "pub struct T<G>(pub u8, pub G) where G: ?::std::marker::Sized;", "COMPILE_ONLY"),
+    ("unsized_path_core", ["Debug"], "pub struct T<G: ?core::marker::Sized + ::core::fmt::Debug> { pub head: u8, pub tail: G }", "COMPILE_ONLY"),
     ("unsized_where_inline", ["Debug", "PartialEq", "PartialOrd"], "pub struct T<G: ::core::cmp::PartialOrd> where G: ?Sized { pub len: u8, pub tail: G }", "COMPILE_ONLY"),
     ("unsized_where_second", ["Debug", "PartialEq", "Eq", "Hash"], "pub struct T<'a, G: ::core::cmp::PartialEq + 'a>(pub &'a u8, pub G) where G: ::core::fmt::Debug, G: ?Sized;", "COMPILE_ONLY"),
     ("unsized_wrapper_last_arg", ["Debug", "PartialEq"], "pub struct T<K, V: ?Sized> { pub a: u8, pub inner: ::dx_support::Tagged<K, V> }", "COMPILE_ONLY"),
